@@ -1,6 +1,7 @@
 package main
 
 import (
+	"go/types"
 	"bytes"
 	"context"
 	"fmt"
@@ -138,6 +139,78 @@ func (p *Prog) smtTextI(ob *Obligation, uses []string, reduced, ground, intAddr 
 	} else {
 		asserts = append(asserts, ob.PC)
 		asserts = append(asserts, Not(ob.Goal))
+	}
+	// never-written package-level tables without a table clause: a small table is defined by its constants at every
+	// application (ite chain), a large one by the range of its constants
+	{
+		seenT := map[*Term]bool{}
+		var apps []*Term
+		var scan func(t *Term)
+		scan = func(t *Term) {
+			if seenT[t] {
+				return
+			}
+			seenT[t] = true
+			if t.Op == "uf" && strings.HasPrefix(t.Name, "tbl!") && !t.bound && len(t.Args) == 1 {
+				apps = append(apps, t)
+			}
+			for _, a := range t.Args {
+				scan(a)
+			}
+		}
+		for _, a := range asserts {
+			scan(a)
+		}
+		for _, app := range apps {
+			covered := false
+			if ob.Fx != nil {
+				for _, ti := range ob.Fx.TableInsts {
+					if ti.Name == app.Name {
+						covered = true
+					}
+				}
+			}
+			if covered || app.Args[0].IsConst() {
+				continue
+			}
+			g, tbl := p.tableByName(app.Name)
+			if g == nil {
+				continue
+			}
+			arr, ok := derefType(g.Type()).Underlying().(*types.Array)
+			if !ok {
+				continue
+			}
+			n := arr.Len()
+			w := app.S.W
+			idx := app.Args[0]
+			val := func(k int64) *Term {
+				if cv, ok := tbl[k]; ok {
+					return cv
+				}
+				return BVConst(0, w)
+			}
+			if n <= 128 {
+				def := val(n - 1)
+				for k := n - 2; k >= 0; k-- {
+					def = Ite(Eq(idx, BVConstI(k, 64)), val(k), def)
+				}
+				asserts = append(asserts, Implies(BVOp("bvult", idx, BVConstI(n, 64)), Eq(app, def)))
+			} else {
+				lo, hi := val(0).V, val(0).V
+				for k := int64(1); k < n; k++ {
+					v := val(k).V
+					if v.Cmp(lo) < 0 {
+						lo = v
+					}
+					if v.Cmp(hi) > 0 {
+						hi = v
+					}
+				}
+				asserts = append(asserts, Implies(BVOp("bvult", idx, BVConstI(n, 64)),
+					And(BVOp("bvule", BVConstBig(lo, w), app), BVOp("bvule", app, BVConstBig(hi, w)))))
+			}
+		}
 	}
 	// ground instances of table axioms at every table application
 	if ob.Fx != nil && len(ob.Fx.TableInsts) > 0 {
